@@ -640,9 +640,9 @@ def _numpy_interp(x, xp, yp, left=None, right=None):
 # get interp weights
 def _interp_internal_get_weights(oldx, newx):
     " compute necessary indices and weights to perform linear interpolation "
-    newindices = _numpy_interp(newx, oldx, np.arange(oldx.size), left=-oldx.size, right=-1)
-    left_idx = newindices == -oldx.size # out-of-bounds
-    right_idx = newindices == -1
+    newindices = _numpy_interp(newx, oldx, np.arange(oldx.size), left=0, right=oldx.size-1)
+    left_idx = newx < oldx[0] # out-of-bounds
+    right_idx = newx > oldx[-1]
     lhs_idx = np.asarray(newindices, dtype=int)
     rhs_idx = np.asarray(np.ceil(newindices), dtype=int)
     frac = newindices - lhs_idx
